@@ -158,9 +158,24 @@ theorem C02C01_no_exit_while_unexecuted (n : Nat) (nh : Nat → Nat → Nat) (ls
   | false => rfl
   | true =>
     have hq := (C02C01_exit_implies_all_executed n nh ls s hrun r hr hx hne).1
-    have := (List.all_eq_true.1 hq) e he
-    unfold isDone at hnd
+    have : isDone e = true := (List.all_eq_true.1 hq) e he
     rw [hnd] at this; cases this
+
+/-- **every later return of the same barrier**: once the first rank may leave barrier `e` (state `s1`, history `ls1`),
+whatever happens afterwards (`ls2`: other ranks leave barrier `e`, the ranks that left issue new messages, enter the
+next barrier, …), every message issued before that first return stays executed on its destination, and no message is
+ever executed twice — so the guarantee holds when barrier() returns on ANY rank, not only on the first one. -/
+theorem C02C01_later_exits (n : Nat) (nh : Nat → Nat → Nat) (ls1 ls2 : List Label) (s1 s2 : St)
+    (h1 : run n nh init ls1 = some s1) (h2 : run n nh s1 ls2 = some s2) (r : Nat) (hr : r < n)
+    (hx : BarrierME.exitEnabled s1.b r = true) (hne : ∀ q, q < n → s1.b.epoch q ≤ s1.b.epoch r) :
+    (∀ m ∈ ls1.flatMap issued, (m.2.1, m.1) ∈ s2.d.executed) ∧ (s2.d.executed.map (·.2)).Nodup := by
+  have hmain := C02C01_exit_implies_all_executed n nh ls1 s1 h1 r hr hx hne
+  obtain ⟨t, ht⟩ := dRun_executed _ (run_projD ls2 h2)
+  refine ⟨?_, Deliver.C01_at_most_once n nh _ s2.d (run_projD _ (run_append ls1 ls2 h1 h2))⟩
+  intro m hm
+  rw [ht]
+  apply List.mem_append_left
+  exact hmain.2.mem_iff.2 (List.mem_map.2 ⟨m, hm, rfl⟩)
 
 /-! ### the README hello-world -/
 
@@ -301,7 +316,7 @@ example : demoB.flatMap issued = [(1, 1, false), (2, 0, false)] := by decide
 /-- hello-world on two ranks: rank 0 calls `async(1, …)` and both communicators are destroyed -/
 private def hello : List Label :=
   [.async 0 1 1 false, .enter 0, .enter 1, .contribute 0, .isend 0 1, .recvBegin 1 0 0, .execBegin 1 1,
-   .execEnd 1 1, .recvEnd 1, .contribute 1, .result 0, .result 1] ++ round2 ++ round2
+   .execEnd 1 1, .recvEnd 1, .contribute 1, .result 0, .result 1] ++ round2
 
 set_option maxRecDepth 16384 in
 /-- the hypotheses of `C02C01_hello_world` are satisfiable and its conclusion is what the run shows -/
